@@ -1531,6 +1531,19 @@ void sm2_z256_point_add_affine(SM2_Z256_POINT *r, const SM2_Z256_POINT *a, const
 	sm2_z256_modp_mont_mul(S2, S2, in2_y);       /* S2 = Y2*Z1^3 */
 	sm2_z256_modp_sub(R, S2, in1_y);             /* R = S2 - S1 */
 
+	/*
+	* P == Q or P == -Q (H == 0) is not covered by the formulas below, handle it as sm2_z256_point_add does
+	*/
+	if (sm2_z256_is_zero(H) && !in1infty && !in2infty) {
+		if (sm2_z256_is_zero(R)) {
+			sm2_z256_point_dbl(r, a);
+			return;
+		} else {
+			memset(r, 0, sizeof(*r));
+			return;
+		}
+	}
+
 	sm2_z256_modp_mont_sqr(Hsqr, H);             /* H^2 */
 	sm2_z256_modp_mont_sqr(Rsqr, R);             /* R^2 */
 	sm2_z256_modp_mont_mul(Hcub, Hsqr, H);       /* H^3 */
